@@ -245,3 +245,98 @@ def strict_emission(ctx):
     # writer bound last; loop stack only when used
     last = [e for e in _all_lines(S.model.method_traces("write_variable_declares")[0].events)][-1]
     ctx.check(last[1].literal() == "__M_writer = context.writer()", "writer-last", "mako/codegen.py (write_variable_declares)", "declarations do not end by binding the writer", "writer bound after the declarations")
+
+
+def _resolved_methods(db, q):
+    """name -> FunctionDef for the methods of class q, class-level aliases (`visitA = visitB`) resolved"""
+    out = dict(db.methods(q))
+    alias = {}
+    for st in db.cls(q).body:
+        if isinstance(st, ast.Assign) and isinstance(st.value, ast.Name):
+            for t in st.targets:
+                if isinstance(t, ast.Name):
+                    alias[t.id] = st.value.id
+    for a in list(alias):
+        seen, b = set(), a
+        while b in alias and b not in seen:
+            seen.add(b)
+            b = alias[b]
+        if b in out:
+            out[a] = out[b]
+    return out
+
+
+@rule("C04.visitor-declares", min_instances=5)
+def visitor_declares(ctx):
+    """every parse-tree node that can declare names (loop targets of control lines, assignments of code blocks, arguments of defs / blocks / calls / page) has an _Identifiers visitor that records node.declared_identifiers(): those names are local to the scope, are checked against the reserved names and are not fetched from the context"""
+    db = ctx.db
+    pt = db.mod("parsetree")
+    declaring = []
+    for c in pt.tree.body:
+        if not isinstance(c, ast.ClassDef):
+            continue
+        m = [s for s in c.body if isinstance(s, ast.FunctionDef) and s.name == "declared_identifiers"]
+        if not m:
+            continue
+        rets = [r for r in walk_func(m[0]) if isinstance(r, ast.Return)]
+        trivial = all(isinstance(r.value, (ast.List, ast.Tuple, ast.Set)) and not r.value.elts or (isinstance(r.value, ast.Call) and dotted(r.value.func) in ("set", "list", "frozenset", "tuple") and not r.value.args) for r in rets)
+        if not trivial:
+            declaring.append(c.name)
+    ctx.require(len(declaring) >= 5, "parsetree: fewer than 5 node classes with a non-empty declared_identifiers() (%s)" % declaring)
+    meths = _resolved_methods(db, "codegen._Identifiers")
+
+    def reads_declared(fn, depth=3, seen=None):
+        seen = seen or set()
+        if id(fn) in seen:
+            return False
+        seen.add(id(fn))
+        for n in walk_func(fn):
+            if isinstance(n, ast.Attribute) and n.attr == "declared_identifiers":
+                return True
+        if depth:
+            for n in walk_func(fn):
+                if isinstance(n, ast.Call) and isinstance(n.func, ast.Attribute) and dotted(n.func.value) == "self" and n.func.attr in meths:
+                    if reads_declared(meths[n.func.attr], depth - 1, seen):
+                        return True
+        return False
+
+    for c in declaring:
+        h = meths.get("visit" + c)
+        if h is None:
+            ctx.violation("declares:" + c, db.where(db.cls("codegen._Identifiers")), "_Identifiers has no visit%s: the names such a node declares are never recorded" % c)
+            continue
+        ctx.check(reads_declared(h), "declares:" + c, db.where(h),
+                  "_Identifiers.visit%s (%s) never reads node.declared_identifiers(): the names a %s binds (e.g. the target of `%% for x in ...`, `except E as x`) are not recorded as declared - assigning a reserved name passes unnoticed and under strict_undefined the bound name raises NameError" % (c, h.name, c),
+                  "declared identifiers recorded")
+
+
+@rule("C04.locals-handed-to-defs", primary=False, min_instances=2, props=["C05"])
+def locals_handed_to_defs(ctx):
+    """the stub that calls a top-level def passes context._locals(__M_locals) under exactly the condition under which the enclosing render function creates __M_locals (same flags, same identifiers object)"""
+    db = ctx.db
+    wr = db.func("codegen._GenerateRenderMethod.write_render_callable")
+    wd = db.func("codegen._GenerateRenderMethod.write_def_decl")
+
+    def guard_of(fn, needle):
+        for g in db.with_helpers(fn):
+            for i in walk_func(g):
+                if isinstance(i, ast.If) and any(isinstance(c, ast.Constant) and isinstance(c.value, str) and needle in c.value for s in i.body for c in ast.walk(s)):
+                    return i
+        return None
+    gr = guard_of(wr, "__M_locals = __M_dict_builtin")
+    gd = guard_of(wd, "context._locals(__M_locals)")
+    ctx.require(gr is not None, "write_render_callable: guard of the `__M_locals = ...` line not found (anchor)")
+    ctx.require(gd is not None, "write_def_decl: guard of the `context._locals(__M_locals)` argument not found (anchor)")
+    a = " ".join(src(resolve_deep(wr, gr.test)).split())
+    b = " ".join(src(resolve_deep(wd, gd.test)).split())
+    ctx.ok("guards-found", db.where(gr), "creation guarded by `%s`" % a[:80])
+    if a == b:
+        ctx.ok("same-condition", db.where(gd), "stub passes the locals under the same condition")
+    else:
+        import re as _re
+        norm = lambda t: _re.sub(r"\b(self\.)?identifiers\b|\bself\.identifier_stack\[-1\]", "IDENTS", t)
+        if norm(a) == norm(b):
+            ctx.violation("same-condition", db.where(gd),
+                          "write_def_decl decides on `%s` whether to pass context._locals(__M_locals) while the render function creates __M_locals on `%s`: the two look at different identifier scopes (for a def referenced from a <%%call> body the scope handed in is the call body's, which has no locals of its own), so the def is called with the bare context and no longer sees the body's variables" % (b[:90], a[:90]))
+        else:
+            ctx.undecided("same-condition", db.where(gd), "conditions differ in shape: `%s` vs `%s`" % (a[:80], b[:80]))
